@@ -12,7 +12,16 @@ TIERS = {
 SOLVER_LEVEL = {"C01", "C02", "C03", "C04", "C05", "C16", "C17"}
 
 
+# every EST_SHARE-th run of these solver-level checks is an estimator-level history, judged by
+# the same oracles through the estimator API (n_iter_, warm_start refits, positive=True, ...)
+EST_SHARE = {"C17": 6, "C05": 6, "C04": 8, "C03": 12}
+
+
 def make_plan(check, seed, run, engine, tier="quick", entry=None):
+    share = EST_SHARE.get(check)
+    if share and entry is None and run % share == share - 1:
+        from . import plans_est
+        return plans_est.make_aux_plan(check, seed, run, engine, tier)
     if check in plans.PLANNERS:
         kw = {}
         if check in ("C03", "C04", "C17"):
